@@ -227,6 +227,15 @@ class Evaluator:
             # control may fall off the end of a function that also returns values: implicit None
             fr.returns.append((sub.guard, NONE))
             self.emit('fallthrough', sub, fi.node, func=fi)
+        # path facts that hold on every normal exit of the callee hold afterwards in the caller
+        # (e.g. the negation of a guard whose failing branch raises)
+        exits = [g[len(st.guard):] for g, _ in fr.returns]
+        if falls and not fr.returns:
+            exits = [sub.guard[len(st.guard):]]
+        if exits and not top:
+            common = [p for p in exits[0] if all(any(veq(p, q) for q in ex) for ex in exits[1:])]
+            if common:
+                st.guard = st.guard + tuple(p for p in common if not any(veq(p, q) for q in st.guard))
         # combine return cases
         if not fr.returns:
             return NONE
@@ -1135,6 +1144,10 @@ class Evaluator:
                         return Num(r, h - l, nb.kind)
                 return term_as_num(Term('slice_of', (nb, idx), kind=nb.kind), True, nb.kind)
             if isinstance(idx, Tup):
+                if len(idx.items) == 2:
+                    r_, c_ = idx.items
+                    if isinstance(r_, Term) and r_.head == 'slice' and all(isinstance(x_, Const) for x_ in r_.args) and isinstance(c_, Num) and c_.length is None:
+                        return term_as_num(Term('col', (arr_identity(nb), c_), kind='ndarray'), True, 'ndarray')
                 return Term('index', (nb, idx), kind='ndarray')
             if isinstance(idx, Term) and idx.head.startswith(('lib:', 'method:', 'call:')):
                 self.emit('subscript', st, node, base=nb, index=idx)
@@ -1309,6 +1322,19 @@ class Evaluator:
                        'tuple': 'tuple'}.get(name, 'unknown'))
         self.lib_event('builtins.' + name, pos, kw, star_kw, st, node, r)
         return r
+
+
+def arr_identity(v):
+    """the term behind an opaque array value"""
+    if isinstance(v, Num) and v.length is not None:
+        atoms = v.r.atoms()
+        if len(atoms) == 1:
+            (a,) = atoms
+            if sym.ATOMS.head(a) == 'el' and sym.ATOMS.args(a)[1] == sym.idx() and v.r == Rat.atom(a):
+                ref = sym.ATOMS.args(a)[0]
+                if isinstance(ref, Ref) and ref.term is not None:
+                    return ref.term
+    return v
 
 
 def _single_atom(r: Rat) -> int:
